@@ -107,6 +107,18 @@ Theorem C13_grader_samples_complete_and_consistent :
 Proof. exact gen_var_samples_ok. Qed.
 Print Assumptions C13_grader_samples_complete_and_consistent.
 
+(* the scopes in which gen_evaluations evaluates the author's and the student's expressions for sample i are sample i
+   itself (resp. sample i without the instructor-only / sibling names): nothing leaks from one sample into the next *)
+Theorem C13_scopes_used_for_grading_are_the_samples :
+  forall V formula (fdeps : formula -> list str) (ev : formula -> env V -> option V)
+         symbols (sf : list (str * sampler formula)) (constants : env V) (draws : list (list V)) l bl,
+  gen_symbols_samples V formula fdeps ev symbols sf constants draws = RsOk l ->
+  Forall2 (fun s sc => env_equiv V (fst sc) s /\
+                       forall x, alookup (snd sc) x = if smem x bl then None else alookup s x)
+          l (eval_scopes V [] bl l).
+Proof. exact scopes_are_the_samples. Qed.
+Print Assumptions C13_scopes_used_for_grading_are_the_samples.
+
 (* a numbered instance is sampled with its base name's sampling set; plain variables keep their own, also when
    their name looks like an instance (collision) *)
 Theorem C13_numbered_instances_use_base_sampler :
